@@ -552,6 +552,8 @@ def delete_scope(repo, col, R):
         col.check(by_kind, R, fi, "delete_clamps matches synaptic keys with the edges in view and all other keys with the compartments in view", "",
                   f"membership is tested against `{sel.short(90)}`", node=subs[0].node)
     pops = [s_ for s_ in ex.stores if (s_.kind == "mcall" and s_.key.name == "pop") or s_.kind == "del"]
+    if not pops:
+        col.unk(R, fi, "delete_clamps removes a key entirely only when none of its inputs remains", "no removal of a key found", node=fi.node)
     if pops:
         g = [x for x in pops[0].guards if x.op != "loop"]
         def nothing_left(c):
